@@ -70,4 +70,18 @@ def checkFlatten (key : List String) (ops : List Dir) (indexMath alsoPart : Stri
 def staticAfterFlat (source : String) (ops : List Dir) (orig : List String) : Bool :=
   ops.any Dir.static && !orig.contains source
 
+/-- `Equation.get_tensor` / `__build_active_tensors`: every tensor an Einsum names must be declared -/
+def undeclGuard (declared used : List String) : Bool := used.any fun t => !declared.contains t
+
+/-- `Bindings.__init__`: per Einsum, the loop over its binding entries sets `configured` when an entry carries `config`; the flag
+    is initialised for EVERY Einsum; an Einsum whose flag is still false after its entries is rejected.  An Einsum is given as the
+    list of its entries' "carries a config" flags. -/
+def configLoop : Bool → List Bool → Bool
+  | c, [] => c
+  | c, b :: bs => configLoop (c || b) bs
+
+def configGuard : List (List Bool) → Bool
+  | [] => false
+  | e :: es => if !configLoop false e then true else configGuard es
+
 end Legality
